@@ -320,15 +320,10 @@ func stressC13(seed int64, d time.Duration) *StressReport {
 				return
 			}
 			body2 := rec.Body.Bytes()
-			if codec == "proto" { // the reply of a client stream is length-delimited too
-				out := fx.NewMsg("Reply")
-				if err := protodelim.UnmarshalFrom(bytes.NewReader(body2), out); err == nil {
-					body2, _ = proto.Marshal(out)
-				}
-			}
+			// the single reply of a client-streaming (not server-streaming) method is written whole, not length-delimited
 			got, _, n, err := replyData(body2, ct)
 			if err != nil || n != k || !bytes.Equal(got, all) {
-				mismatch("http-up", fmt.Sprintf("%s %d messages (handler kept %d)", ct, k, n), got, all)
+				mismatch("http-up", fmt.Sprintf("%s %d messages (handler kept %d) enc=%q err=%v request-body=%x response-body=%x", ct, k, n, r.Header.Get("Content-Encoding"), err, trunc(body, 6000), trunc(rec.Body.Bytes(), 6000)), got, all)
 			}
 			atomic.AddInt64(&counts[1], 1)
 		},
